@@ -108,7 +108,7 @@ class Item:
         self.text = src[start:body_close + 1]
 
 
-def find_block(src, header_regex, lo=0, hi=None, want_depth=0, base_depth=None):
+def find_block(src, header_regex, lo=0, hi=None, want_depth=0, base_depth=None, all_matches=False):
     """Find an item whose header (text up to its `{`) matches header_regex, at brace depth want_depth
     relative to the span [lo,hi). Returns Item or None. Raises if ambiguous."""
     hi = len(src) if hi is None else hi
@@ -139,6 +139,8 @@ def find_block(src, header_regex, lo=0, hi=None, want_depth=0, base_depth=None):
             continue
         close = match_close(src, mask, j)
         found.append(Item(src, s, j, j, close))
+    if all_matches:
+        return found
     if not found:
         return None
     if len(found) > 1:
